@@ -69,8 +69,13 @@ struct ClientTarget {
     v_in: Input,
     e_in: Input,
     m_in: Input,
-    v_set: mpsc::Sender<ValueDownlinkSet<u64>>,
-    m_handle: MapDownlinkHandle<i32, u64>,
+    /// None once the script dropped the handle.
+    v_set: Option<mpsc::Sender<ValueDownlinkSet<u64>>>,
+    m_handle: Option<MapDownlinkHandle<i32, u64>>,
+    /// The tasks reading (and decoding) what the downlinks write; None once the script made the
+    /// consumer of the output go away.
+    v_out_reader: Option<JoinHandle<()>>,
+    m_out_reader: Option<JoinHandle<()>>,
     stuck: Vec<String>,
 }
 
@@ -78,23 +83,48 @@ impl Target for ClientTarget {
     async fn write(&mut self, kind: Kind, chunk: &[u8]) -> bool {
         match kind {
             Kind::Value => {
-                // The event downlink receives the same bytes; its liveness does not gate the script.
-                let _ = self.e_in.write(chunk, &mut self.stuck, "client event downlink").await;
-                self.v_in.write(chunk, &mut self.stuck, "client value downlink").await
+                // The event downlink receives the same bytes. The script goes on while either task
+                // reads: if only one of them has stopped (they stop at the same `unlinked` unless
+                // one of them is wrong), the other must still be given whole frames.
+                let e = self.e_in.write(chunk, &mut self.stuck, "client event downlink").await;
+                let v = self.v_in.write(chunk, &mut self.stuck, "client value downlink").await;
+                e || v
             }
             Kind::Map => self.m_in.write(chunk, &mut self.stuck, "client map downlink").await,
         }
     }
 
     async fn local(&mut self, _kind: Kind, op: &LocalOp) {
-        let r = match op {
-            LocalOp::SetV(v) => tokio::time::timeout(IO_TIMEOUT, self.v_set.send(ValueDownlinkSet { to: *v })).await.map(|r| r.is_ok()),
-            LocalOp::Upd(k, v) => tokio::time::timeout(IO_TIMEOUT, self.m_handle.update(*k, *v)).await.map(|r| r.is_ok()),
-            LocalOp::Rem(k) => tokio::time::timeout(IO_TIMEOUT, self.m_handle.remove(*k)).await.map(|r| r.is_ok()),
-            LocalOp::Clr => tokio::time::timeout(IO_TIMEOUT, self.m_handle.clear()).await.map(|r| r.is_ok()),
+        // A local write after the handle was dropped cannot be issued (the generators do not
+        // produce one; the shrinker may).
+        let r = match (op, self.v_set.as_ref(), self.m_handle.as_ref()) {
+            (LocalOp::SetV(v), Some(h), _) => tokio::time::timeout(IO_TIMEOUT, h.send(ValueDownlinkSet { to: *v })).await.map(|r| r.is_ok()),
+            (LocalOp::Upd(k, v), _, Some(h)) => tokio::time::timeout(IO_TIMEOUT, h.update(*k, *v)).await.map(|r| r.is_ok()),
+            (LocalOp::Rem(k), _, Some(h)) => tokio::time::timeout(IO_TIMEOUT, h.remove(*k)).await.map(|r| r.is_ok()),
+            (LocalOp::Clr, _, Some(h)) => tokio::time::timeout(IO_TIMEOUT, h.clear()).await.map(|r| r.is_ok()),
+            _ => Ok(false),
         };
         if r.is_err() {
             self.stuck.push("client: local write not accepted by the handle".to_string());
+        }
+    }
+
+    async fn drop_handle(&mut self, kind: Kind) {
+        match kind {
+            Kind::Value => drop(self.v_set.take()),
+            Kind::Map => drop(self.m_handle.take()),
+        }
+    }
+
+    async fn output_fault(&mut self, kind: Kind) {
+        let reader = match kind {
+            Kind::Value => self.v_out_reader.take(),
+            Kind::Map => self.m_out_reader.take(),
+        };
+        if let Some(r) = reader {
+            // Dropping the reading task drops the `ByteReader`: the channel is closed for the writer.
+            r.abort();
+            let _ = r.await;
         }
     }
 
@@ -215,8 +245,10 @@ pub fn run_client(flags: Flags, merged: &[(Kind, usize, Step)], n_value: usize, 
             v_in: Input { writer: Some(v_in_tx) },
             e_in: Input { writer: Some(e_in_tx) },
             m_in: Input { writer: Some(m_in_tx) },
-            v_set,
-            m_handle: MapDownlinkHandle::new(m_ops),
+            v_set: Some(v_set),
+            m_handle: Some(MapDownlinkHandle::new(m_ops)),
+            v_out_reader: Some(r1),
+            m_out_reader: Some(r2),
             stuck: vec![],
         };
         let marks = drive(&mut target, merged, n_value, n_map, mode, &mut rng).await;
@@ -225,7 +257,7 @@ pub fn run_client(flags: Flags, merged: &[(Kind, usize, Step)], n_value: usize, 
         obs.mtrace = mtrace.lock().clone();
         obs.etrace = Some(etrace.lock().clone());
         // Close the inputs: every task must now run to completion.
-        let ClientTarget { v_in, e_in, m_in, v_set, m_handle, stuck, .. } = target;
+        let ClientTarget { v_in, e_in, m_in, v_set, m_handle, stuck, v_out_reader, m_out_reader, .. } = target;
         drop((v_in, e_in, m_in));
         settle().await;
         finish(v_task, "client value downlink task", "value", &mut obs, legal).await;
@@ -238,8 +270,9 @@ pub fn run_client(flags: Flags, merged: &[(Kind, usize, Step)], n_value: usize, 
         obs.v_out = v_out.lock().clone();
         obs.m_out = m_out.lock().clone();
         obs.stuck = stuck;
-        r1.abort();
-        r2.abort();
+        for r in [v_out_reader, m_out_reader].into_iter().flatten() {
+            r.abort();
+        }
         obs
     })
 }
